@@ -27,7 +27,7 @@ Print Assumptions history_independence.
 
 (* any rules, contiguous probe: under the guard that excludes the recorded
    finding (a user-supplied output for a module that owns a per-thread cache
-   which is not scan-scoped: pe, elf, macho, dex, crx, magic, cuckoo) *)
+   which is not scan-scoped: GENERATED tl_scan_scoped = false) *)
 Theorem history_independence_contiguous : forall R h i,
   forallb wf_op h = true ->
   tl_guard R (spec_persist h) ->
@@ -56,15 +56,15 @@ Proof. exact StateProofs.contig_prologue_establishes. Qed.
 Print Assumptions contiguous_prologue_establishes_transient_state.
 
 (* without the restriction on the rules the statement is still false: the
-   per-thread caches of modules that are not scan-scoped leak (witnesses
-   replayed on the implementation through the cuckoo module) *)
+   per-thread caches of modules that are not scan-scoped leak (witnesses:
+   cuckoo's per-thread report, replayed on the implementation by the harness corpus) *)
 Theorem history_independence_refuted : ~ history_independence_stmt.
 Proof. exact StateProofs.history_independence_refuted. Qed.
 Print Assumptions history_independence_refuted.
 
 Theorem history_independence_witnesses :
-  leaks [OOther eff_tl; OIntoBlocks] 3 (CTL tl_pe_IMPHASH_CACHE) /\
-  leaks [OOther eff_tl; OSetModuleOutput 2] 3 (CTL tl_pe_IMPHASH_CACHE).
+  leaks [OOther eff_tl; OIntoBlocks] 3 (CTL tl_cuckoo_LOCAL_DATA) /\
+  leaks [OOther eff_tl; OSetModuleOutput 6] 3 (CTL tl_cuckoo_LOCAL_DATA).
 Proof. exact (conj leak_tl_block leak_tl_user_output). Qed.
 Print Assumptions history_independence_witnesses.
 
